@@ -16,6 +16,10 @@ Section ListSpec.
     map (fun i => (i, S i)) (seq 0 (n - 1)) ++
     (if closed then match n with 0%nat => [] | S m => [(m, 0%nat)] end else []).
 
+  (* Polyline.segments: the coordinate pair of every edge *)
+  Definition segments (v : list A) (closed : bool) : list (option A * option A) :=
+    map (fun e => (nth_error v (fst e), nth_error v (snd e))) (spec_edges (length v) closed).
+
   (* rotation: vertex k (mod n) becomes vertex 0 *)
   Definition spec_rot (k : Z) (l : list A) : list A :=
     match l with
